@@ -5,6 +5,7 @@ import (
 	"regexp"
 	"strings"
 	"testing"
+	"unicode"
 	"unicode/utf8"
 
 	"github.com/tobgu/qframe"
@@ -97,6 +98,19 @@ func TestC18(t *testing.T) { rapid.Check(t, propC18) }
 
 // FuzzC18 drives the same property with coverage-guided bytes (thorough tier only).
 func FuzzC18(f *testing.F) { f.Fuzz(rapid.MakeFuzz(propC18)) }
+
+// swapCase flips the case of every letter (in a regular expression also of the class escapes: \d becomes \D).
+func swapCase(s string) string {
+	rs := []rune(s)
+	for i, r := range rs {
+		if u := unicode.ToUpper(r); u != r {
+			rs[i] = u
+		} else {
+			rs[i] = unicode.ToLower(r)
+		}
+	}
+	return string(rs)
+}
 
 func propC18(t *rapid.T) {
 	{
@@ -236,12 +250,13 @@ func propC18(t *rapid.T) {
 			}
 			match2 = m2
 		}
+		preludeName := ""
 		desc := func() string {
 			cs := make([]string, n)
 			for i, p := range cells {
 				cs[i] = ptrStr(p)
 			}
-			return fmt.Sprintf("cells %s\n%s pattern %q (%+q) inverse=%v unused enum values declared first: %d wrap=%s (second leaf: %s %q inverse=%v)", strings.Join(cs, " "), comp, pattern, pattern, inverse, fillers, wrap, comp2, pattern2, inverse2)
+			return fmt.Sprintf("prelude=%s cells %s\n%s pattern %q (%+q) inverse=%v unused enum values declared first: %d wrap=%s (second leaf: %s %q inverse=%v)", preludeName, strings.Join(cs, " "), comp, pattern, pattern, inverse, fillers, wrap, comp2, pattern2, inverse2)
 		}
 		qf := hx.Build(tab)
 		if qf.Err != nil {
@@ -260,6 +275,34 @@ func propC18(t *rapid.T) {
 				rc[i] = cells[n-1-i]
 			}
 			cells = rc
+		}
+		// an earlier use of the same columns: a related filter on the frame, the same filter on a part of it or on an
+		// upper-cased copy of it - the checked filter below must not care (its results are what counts)
+		prelude := rapid.SampledFrom([]string{"", "", "", "swapcase", "othercomp", "slicefirst", "filterfirst", "upperfirst", "samefilter"}).Draw(t, "prelude")
+		preludeName = prelude
+		if prelude != "" {
+			_ = hx.Safely(func() {
+				for _, col := range []string{"s", "e"} {
+					f := qframe.Filter{Column: col, Comparator: comp, Arg: pattern, Inverse: inverse}
+					switch prelude {
+					case "swapcase":
+						f.Arg = swapCase(pattern)
+						_ = qf.Filter(f)
+					case "othercomp":
+						f.Comparator = map[string]string{"like": "ilike", "ilike": "like"}[comp]
+						_ = qf.Filter(f)
+					case "slicefirst":
+						_ = qf.Slice(0, (n+1)/2).Filter(f)
+						_ = qf.Slice(n/2, n).Filter(f)
+					case "filterfirst":
+						_ = qf.Filter(qframe.Filter{Column: "id", Comparator: ">=", Arg: n / 2}).Filter(f)
+					case "upperfirst":
+						_ = qf.Apply(qframe.Instruction{Fn: "ToUpper", DstCol: col, SrcCol1: col}).Filter(f)
+					case "samefilter":
+						_ = qf.Filter(f)
+					}
+				}
+			})
 		}
 		match, merr := hx.LikeModel(pattern, comp == "ilike")
 		var results [2]qframe.QFrame
